@@ -17,7 +17,7 @@ import stat
 from hypothesis import strategies as st
 
 from vlib.common import MIRROR, RUN
-from vlib.e2e import client, dnsstub
+from vlib.e2e import client, dnsstub, ftpstub
 from vlib.e2e.env import ProxyEnv
 from vlib.e2e.squidproc import free_port
 from vlib.e2e_runner import Result
@@ -36,7 +36,10 @@ TEMPLATES = sorted(f for f in os.listdir(os.path.join(MIRROR, "errors", "templat
 NATURAL = ["deny", "custom", "auth-required", "auth-custom", "nxdomain", "connect-fail", "bad-port", "empty-host", "unknown-scheme",
            "bad-version", "bad-header-syntax", "bad-expect", "bad-content-length", "bad-te", "too-big-request", "too-big-reply",
            "only-if-cached", "zero-size", "invalid-resp", "read-error", "never-direct", "icap-fail", "urn", "mgr-denied",
-           "internal-static", "ftp-connect-fail", "connect-denied", "origin-form-no-host", "huge-header", "via-loop", "bad-request-line"]
+           "internal-static", "ftp-connect-fail", "connect-denied", "origin-form-no-host", "huge-header", "via-loop", "bad-request-line",
+           "ftp-listing", "ftp-listing", "ftp-cwd-fail", "ftp-login-fail", "ftp-transfer-fail", "ftp-retr-fail"]
+FTP_TRIGGERS = ("ftp-listing", "ftp-cwd-fail", "ftp-login-fail", "ftp-transfer-fail", "ftp-retr-fail")
+FTP_PLACES = ["name", "link", "rawline", "dosname", "msg"]
 
 CUSTOM_TEMPLATE = """<!DOCTYPE html><html><head><title>%c</title><style type="text/css"><!-- %l --></style></head><body>
 <p>a=[%a]</p><p>A=[%A]</p><p>b=[%b]</p><p>B=[<a href="%B">%B</a>]</p><p>c=[%c]</p><p>D=[%D]</p><p>e=[%e]</p><p>E=[%E]</p>
@@ -60,6 +63,8 @@ def strategy(tp):
         "header": st.sampled_from(HEADER_NAMES),
         "version": st.sampled_from(["HTTP/1.1", "HTTP/1.1", "HTTP/1.0"]),
         "post": st.booleans(),
+        # where the canary sits in what the FTP server stub sends (FTP triggers only)
+        "ftp_places": st.lists(st.sampled_from(FTP_PLACES), min_size=1, max_size=3, unique=True),
     })
 
 
@@ -133,12 +138,14 @@ def setup(ctx):
     access += ["http_access deny p_auth !authed", "http_access deny p_ac1 authed p_ac2", "http_access allow all"]
     env = ProxyEnv(ctx, conf="\n".join(lines) + "\n", cache_mem="0 MB", dns=dns_addr, access="\n".join(access))
     env.tdir, env.dns, env.closed = tdir, dns, closed
+    env.ftp = ftpstub.FtpServer()
     env.strip_query = ctx.worker % 2 == 0
     return env
 
 
 def teardown(env):
     try:
+        env.ftp.stop()
         env.dns.stop()
     finally:
         env.close()
@@ -167,10 +174,11 @@ def unescaped_in(segment):
 
 
 def judge_page(body, core, tail, r, window):
-    """Apply the statement to one error page body. -> number of reflections judged.  A reflection is CORE followed by TAIL within
-    `window` bytes (6 bytes per canary byte covers every escaping); a CORE whose TAIL was cut off by Squid's own URL splitting
-    is followed by template text and cannot be judged."""
+    """Apply the statement to one error page body. -> (number of reflections judged, [(site, why, context)]).  A reflection is
+    CORE followed by TAIL within `window` bytes (6 bytes per canary byte covers every escaping); a CORE whose TAIL was cut off
+    by Squid's own URL splitting is followed by template text and cannot be judged."""
     judged = 0
+    bad = []
     pos = 0
     while True:
         i = body.find(core, pos)
@@ -184,8 +192,10 @@ def judge_page(body, core, tail, r, window):
         judged += 1
         why = unescaped_in(body[pos:j])
         if why:
-            return judged, (why, body[max(0, i - 60):j + len(tail) + 20])
-    return judged, None
+            # where in the page: the only site-specific class so far is the table cell that carries an FTP listing line as it is
+            site = ":unparsed-listing-line" if b'<td colspan="5">' in body[max(0, i - 400):i] and b"</td>" not in body[body.rfind(b'<td colspan="5">', 0, i):i] else ""
+            bad.append((site, why, body[max(0, i - 60):j + len(tail) + 20]))
+    return judged, bad
 
 
 def canary_for(sc, place):
@@ -284,6 +294,10 @@ def build(env, sc, ns):
         headers.append(("X-Pad", canary_for(sc, "header") + "a" * 70000))
     elif t == "bad-version":
         version = "HTTP/2.0" if sc["post"] else "HTTP/1.75"
+    elif t in FTP_TRIGGERS:
+        scheme, port, method = "ftp", env.ftp.port, "GET"
+        places.discard("method")
+        places.discard("host")
     # ---- canary placement
     if "method" in places and t != "connect-denied":
         method = "M" + canary_for(sc, "method")
@@ -292,6 +306,8 @@ def build(env, sc, ns):
         if t != "nxdomain" and (reach_origin or t in ("connect-fail", "ftp-connect-fail")):
             dns[host] = ["127.0.0.1"]
     path = prefix + "/" + (canary_for(sc, "path") if "path" in places else "p")
+    if t in FTP_TRIGGERS:
+        path += ";type=i" if t == "ftp-retr-fail" else "/"
     if "query" in places:
         path += "?k=v&c=" + canary_for(sc, "query")
     authority = host
@@ -338,10 +354,41 @@ def build(env, sc, ns):
     return data, method, behaviour, dns
 
 
+def ftp_behaviour(sc):
+    """What the FTP stub serves for the FTP triggers: the canary inside a well-formed entry name, a symlink target, a line
+    that is not a listing entry, a DOS entry, and multi-line server messages."""
+    t = sc["trigger"]
+    fp = set(sc.get("ftp_places") or ["name"])
+    can = canary_for(sc, "ftp")
+    lines = ["-rw-r--r-- 1 u g 5 Jan  1  2020 " + (can if "name" in fp else "plain.txt")]
+    if "link" in fp:
+        lines.append("lrwxrwxrwx 1 u g 5 Jan  1  2020 lnk -> " + can)
+    if "rawline" in fp:
+        lines.append("?? " + can)
+    if "dosname" in fp:
+        lines.append("04-05-70 09:33PM <DIR> " + can.replace(" ", ""))
+    beh = {"listing": ("\r\n".join(lines) + "\r\n").encode("latin-1")}
+    if "msg" in fp:
+        beh["login_msg"] = ["welcome " + can, "logged in"]
+        beh["cwd_msg"] = ["note " + can, "directory changed"]
+        beh["greeting"] = ["hello " + can, "ready"]
+    if t == "ftp-cwd-fail":
+        beh["cwd_code"] = 550
+    elif t == "ftp-login-fail":
+        beh["pass_code"] = 530
+    elif t == "ftp-transfer-fail":
+        beh["done_code"] = 451
+    return beh
+
+
 def execute(env, sc):
     r = Result()
     ns = env.ns()
     data, method, behaviour, dns = build(env, sc, ns)
+    if sc["trigger"] in FTP_TRIGGERS:
+        fb = ftp_behaviour(sc)
+        env.ftp.script(ns, fb)
+        env.ftp.default_behaviour = {k: v for k, v in fb.items() if k in ("greeting", "login_msg", "pass_code")}   # needed before the first path
     for name, addrs in dns.items():
         env.dns.set(name, addrs)
     env.origin.default_behaviour = dict(behaviour) if behaviour else {"status": 404, "reason": "Not Found", "body_b64": "", "framing": "length"}
@@ -352,6 +399,11 @@ def execute(env, sc):
     finally:
         c.close()
     env.origin.default_behaviour = {"status": 404, "reason": "Not Found", "body_b64": "", "framing": "length"}
+    if sc["trigger"] in FTP_TRIGGERS:
+        env.ftp.forget(ns)
+        env.ftp.default_behaviour = {}
+        for p in sc.get("ftp_places") or []:
+            r.label("ftp-place:" + p)
     r.label("trigger:" + (sc["trigger"] if not sc["trigger"].startswith("tpl:") else "tpl"))
     if m is None or getattr(m, "timed_out", False):
         r.inconclusive = "client timed out"
@@ -377,8 +429,12 @@ def execute(env, sc):
                     r.label("reflected-with-place:" + p)
             else:
                 r.label("not-reflected")
-            if bad:
-                why, ctx = bad
-                r.fail("client-input-unescaped-in-error-page:" + page, "%s; page context: %r; trigger %s places %s" % (why, ctx, sc["trigger"], sc["places"]))
+            seen = set()
+            for site, why, ctx in bad:
+                if site in seen:
+                    continue
+                seen.add(site)
+                r.fail("client-input-unescaped-in-error-page:" + page + site, "%s; page context: %r; trigger %s places %s %s" % (
+                    why, ctx, sc["trigger"], sc["places"], sc.get("ftp_places") if sc["trigger"] in FTP_TRIGGERS else ""))
     env.health(r)
     return r
